@@ -6,6 +6,8 @@ import os
 ROOT = os.path.dirname(os.path.dirname(os.path.abspath(__file__)))
 rows = []
 for d in sorted(glob.glob(os.path.join(ROOT, "seeded", "*"))):
+    if os.path.basename(d).startswith("control_"):
+        continue
     try:
         m = json.load(open(os.path.join(d, "meta.json")))
     except Exception:
